@@ -615,3 +615,127 @@ Proof.
   destruct (t_listen (S f) c s (Some fr) (now s + timeout)) as [r s']. cbn [fst snd] in *. subst r. cbn [fst snd].
   repeat split; [lia | exact G3].
 Qed.
+
+(* ================================================================ the release phase ends *)
+Lemma budget_mono eps a b : 0 < eps -> a <= b -> (budget eps a <= budget eps b)%nat.
+Proof. intros He H. unfold budget. apply Z2Nat.inj_le; try (apply Z.div_pos; lia). apply Z.div_le_mono; lia. Qed.
+
+Lemma nresp_snoc n a snt fr t : nresp (mkst n a (snt ++ [(fr, t)])) = (nresp (mkst n a snt) + (if isome fr then 1 else 0))%nat.
+Proof. unfold nresp. cbn [sent]. rewrite filter_app, app_length. cbn [filter fst]. destruct (isome fr); cbn [length]; lia. Qed.
+Lemma nresp_now n n' a a' snt : nresp (mkst n a snt) = nresp (mkst n' a' snt).
+Proof. reflexivity. Qed.
+
+(* time only moves forward in a listen, a received frame costs a clock tick, at most the one response is sent, and the answers
+   left are a remainder of the script *)
+Lemma t_listen_mono fuel : forall c s fr dl, 0 <= ctick c ->
+  let r := fst (t_listen fuel c s fr dl) in
+  let s' := snd (t_listen fuel c s fr dl) in
+  now s <= now s' /\ (okb r = true -> now s + ctick c <= now s') /\
+  (nresp s' <= nresp s + (if isome fr then 1 else 0))%nat /\ (forall P, Forall P (ans s) -> Forall P (ans s')).
+Proof.
+  induction fuel as [|f IH]; intros c s fr dl Ht; cbv zeta; cbn [t_listen].
+  - cbn [fst snd okb]. repeat split; try lia; try discriminate; auto.
+  - set (t := if now s <? dl then dl - now s else 0). unfold xchg. destruct s as [n a snt]. cbn [ans sent now].
+    assert (Hsil : forall r, let s' := mkst (n + ctick c + Z.max t (ctick c)) r (snt ++ [(fr, t)]) in
+              n <= now s' /\ (nresp s' <= nresp (mkst n a snt) + (if isome fr then 1 else 0))%nat).
+    { intro r. cbn [now]. rewrite nresp_snoc. rewrite (nresp_now _ n _ a). split; lia. }
+    destruct a as [|[|d|g] r].
+    + destruct (Hsil []) as (G1 & G2). cbn [fst snd okb]. repeat split; try assumption; try discriminate; auto.
+    + destruct (Hsil r) as (G1 & G2). cbn [fst snd okb]. repeat split; try assumption; try discriminate.
+      intros P H. inversion H; assumption.
+    + destruct ((0 <? d) && (d <=? t)) eqn:E.
+      * specialize (IH c (mkst (n + d) r (snt ++ [(fr, t)])) None dl Ht). cbv zeta in IH. destruct IH as (G1 & G2 & G3 & G4).
+        destruct (t_listen f c _ None dl) as [r' s']. cbn [fst snd now ans] in *. rewrite nresp_snoc in G3. rewrite (nresp_now _ n _ (ACorrupt d :: r)) in G3.
+        cbn [isome] in G3. repeat split; [lia | intro H; specialize (G2 H); lia | lia |]. intros P H. apply G4. inversion H; assumption.
+      * destruct (Hsil r) as (G1 & G2). cbn [fst snd okb]. repeat split; try assumption; try discriminate.
+        intros P H. inversion H; assumption.
+    + destruct (t_decode_good c g (mkst (n + ctick c) r (snt ++ [(fr, t)]))) as (r' & -> & _). cbn [fst snd now ans].
+      rewrite nresp_snoc. rewrite (nresp_now _ n _ (AFrame g :: r)). repeat split; try lia. intros P H. inversion H; assumption.
+Qed.
+
+Lemma t_send_frame fuel c s res dl : cfg_ok c -> res_ok c res ->
+  exists fr, t_send fuel c s None res dl = t_listen fuel c s fr dl.
+Proof.
+  intros Hc Hr. unfold t_send. destruct res as [[[fmt pni] data]|]; [|eexists; reflexivity].
+  destruct (enc_ok false c fmt pni data Hc Hr) as [fr ->]. eexists. reflexivity.
+Qed.
+
+Lemma t_deact_loop_spec fuel' : forall fuel c s res data dl eps,
+  cfg_ok c -> len data <= cmiu c -> res_ok c res -> 0 < eps -> 0 < ctick c -> 0 <= now s -> Forall (slow eps) (ans s) ->
+  (now s < dl -> (budget (ctick c) (dl - now s) < fuel')%nat) -> (budget eps (dl - now s) < fuel)%nat ->
+  let r := fst (t_deact_loop fuel' fuel c s res data dl) in
+  let s' := snd (t_deact_loop fuel' fuel c s res data dl) in
+  r = Ok tt /\ now s <= now s' /\ now s' <= Z.max (now s) (dl + 4 * ctick c) /\
+  (nresp s' <= nresp s + (if (now s <? dl)%Z then budget (ctick c) (dl - now s)%Z + 2 else 0))%nat.
+Proof.
+  induction fuel' as [|f IH]; intros fuel c s res data dl eps Hc Hd Hr He Ht Hn Hs Hf' Hf; cbv zeta.
+  - cbn [t_deact_loop]. destruct (now s <? dl) eqn:E; cbn [negb]; [specialize (Hf' ltac:(lia)); lia|].
+    cbn [fst snd]. repeat split; lia.
+  - cbn [t_deact_loop]. destruct (now s <? dl) eqn:E; cbn [negb]; [|cbn [fst snd]; repeat split; lia].
+    assert (Hlt : now s < dl) by lia. specialize (Hf' Hlt).
+    destruct (t_send_frame fuel c s res dl Hc Hr) as [fr ->].
+    pose proof (t_listen_deadline fuel c s fr dl eps He ltac:(lia) Hs Hf) as HD.
+    pose proof (t_listen_mono fuel c s fr dl ltac:(lia)) as HM. cbv zeta in HD, HM.
+    destruct (t_listen fuel c s fr dl) as [r s1]. cbn [fst snd] in HD, HM.
+    destruct HD as (Hg & Hb & _ & _). destruct HM as (M1 & M2 & M3 & M4).
+    assert (M3' : (nresp s1 <= nresp s + 1)%nat) by (destruct (isome fr); lia).
+    assert (Hb' : now s1 <= dl + 2 * ctick c) by lia.
+    pose proof (budget_mono (ctick c) 0 (dl - now s) Ht ltac:(lia)) as Hb0.
+    assert (Hret : let p := (@Ok unit tt, s1) in
+              fst p = Ok tt /\ now s <= now (snd p) /\ now (snd p) <= Z.max (now s) (dl + 4 * ctick c) /\
+              (nresp (snd p) <= nresp s + (budget (ctick c) (dl - now s) + 2))%nat).
+    { cbn [fst snd]. repeat split; lia. }
+    assert (Hgo : forall res', res_ok c res' -> okb r = true ->
+              let p := t_deact_loop f fuel c s1 res' data dl in
+              fst p = Ok tt /\ now s <= now (snd p) /\ now (snd p) <= Z.max (now s) (dl + 4 * ctick c) /\
+              (nresp (snd p) <= nresp s + (budget (ctick c) (dl - now s) + 2))%nat).
+    { intros res' Hr' Hok. specialize (M2 Hok).
+      assert (F1 : now s1 < dl -> (budget (ctick c) (dl - now s1) < f)%nat).
+      { intro H1. pose proof (budget_step (ctick c) (dl - now s) (ctick c) Ht ltac:(lia) ltac:(lia)) as B1.
+        pose proof (budget_mono (ctick c) (dl - now s1) (dl - now s - ctick c) Ht ltac:(lia)). lia. }
+      assert (F2 : (budget eps (dl - now s1) < fuel)%nat).
+      { pose proof (budget_mono eps (dl - now s1) (dl - now s) He ltac:(lia)). lia. }
+      specialize (IH fuel c s1 res' data dl eps Hc Hd Hr' He Ht ltac:(lia) (M4 _ Hs) F1 F2). cbv zeta in IH.
+      destruct IH as (I1 & I2 & I3 & I4). cbv zeta. repeat split; [exact I1 | lia | lia |].
+      destruct (now s1 <? dl) eqn:E1; [|lia].
+      pose proof (budget_step (ctick c) (dl - now s) (ctick c) Ht ltac:(lia) ltac:(lia)) as B1.
+      pose proof (budget_mono (ctick c) (dl - now s1) (dl - now s - ctick c) Ht ltac:(lia)). lia. }
+    destruct r as [[q|]|e|x|]; [| exact Hret | exact Hret | contradiction | contradiction].
+    destruct (oeqb (treq_did q) (cdid c)); [|apply Hgo; [exact I | reflexivity]].
+    assert (Hrel : forall rls,
+              let p := (let (r2, s2) := t_listen fuel c s1 (Some (enc_rel c rls)) 0 in
+                        match r2 with Crash x => (@Crash unit x, s2) | Hang => (Hang, s2) | _ => (Ok tt, s2) end) in
+              fst p = Ok tt /\ now s <= now (snd p) /\ now (snd p) <= Z.max (now s) (dl + 4 * ctick c) /\
+              (nresp (snd p) <= nresp s + (budget (ctick c) (dl - now s) + 2))%nat).
+    { intro rls.
+      assert (F0 : (budget eps (0 - now s1) < fuel)%nat).
+      { pose proof (budget_mono eps (0 - now s1) (dl - now s) He ltac:(lia)). lia. }
+      pose proof (t_listen_deadline fuel c s1 (Some (enc_rel c rls)) 0 eps He ltac:(lia) (M4 _ Hs) F0) as HD2.
+      pose proof (t_listen_mono fuel c s1 (Some (enc_rel c rls)) 0 ltac:(lia)) as HM2. cbv zeta in HD2, HM2.
+      destruct (t_listen fuel c s1 (Some (enc_rel c rls)) 0) as [r2 s2]. cbn [fst snd] in HD2, HM2.
+      destruct HD2 as (Hg2 & Hb2 & _ & _). destruct HM2 as (N1 & _ & N3 & _). cbn [isome] in N3.
+      destruct r2 as [o|e|x|]; try contradiction; cbv zeta; cbn [fst snd]; repeat split; lia. }
+    destruct q as [d|dd|dd|dd].
+    + destruct (rfmt d =? 8); apply Hgo; try reflexivity; [cbn; apply nil_le_miu, Hc | cbn; exact Hd].
+    + apply (Hrel false).
+    + apply (Hrel true).
+    + apply Hgo; [exact I | reflexivity].
+Qed.
+
+(* Target._deactivate against ANY script of requests, of any length - valid ATN / INF / NAK / ACK with matching DID included -
+   and any corrupted frames (each needing eps > 0 time units): it returns, no later than the grace period (1 s) plus four clock
+   ticks after it began, and has sent at most (grace / tick) + 2 responses.  The fuel - the number of loop iterations - depends
+   on grace / tick and grace / eps only, never on the length of the script. *)
+Theorem dep_target_deactivate_deadline fuel c s data grace eps :
+  cfg_ok c -> len data <= cmiu c -> 0 < eps -> 0 < ctick c -> 0 <= now s -> Forall (slow eps) (ans s) ->
+  (budget (ctick c) grace < fuel)%nat -> (budget eps grace < fuel)%nat ->
+  let r := fst (t_deactivate fuel c s data grace) in
+  let s' := snd (t_deactivate fuel c s data grace) in
+  r = Ok tt /\ now s' <= now s + Z.max 0 grace + 4 * ctick c /\ (nresp s' <= nresp s + budget (ctick c) grace + 2)%nat.
+Proof.
+  intros Hc Hd He Ht Hn Hs Hf1 Hf2. unfold t_deactivate.
+  pose proof (t_deact_loop_spec fuel fuel c s None data (now s + grace) eps Hc Hd I He Ht Hn Hs) as H.
+  replace (now s + grace - now s) with grace in H by lia. specialize (H (fun _ => Hf1) Hf2). cbv zeta in *.
+  destruct H as (H1 & H2 & H3 & H4). repeat split; [exact H1 | lia |].
+  destruct (now s <? now s + grace); lia.
+Qed.
